@@ -6,6 +6,7 @@ from hypothesis import strategies as st
 from .. import model as M
 from .. import common as C
 from ..runner import run_given
+from ..stateful import Mismatch
 
 PROPERTY = 'C13'
 RULE = ("~x, x&y, x|y, x^y with y a fixed-point object of the same n_word (either signedness, independent n_frac) or an integer mask (non-negative or negative, either side): result must have x's format and "
@@ -15,7 +16,7 @@ RULE = ("~x, x&y, x|y, x^y with y a fixed-point object of the same n_word (eithe
 ASSUMPTIONS = ['operands are created from raw codes', 'Fxp-array (x) Fxp-array and >=64-bit arrays (x) mask are outside the quantifier (they raise; recorded as an observation)']
 EXHAUSTIVE = False    # the whole quantifier is not enumerated; complete sub-domains are listed in EXHAUSTIVE_SUBDOMAINS
 EXHAUSTIVE_SUBDOMAINS = {'quick': ['all code pairs, n_word<=6, 4 signedness combinations, n_frac in {0, n_word//2, n_word} per operand'], 'thorough': ['same for n_word<=7 with every n_frac 0..n_word of x']}
-REQUIRED_CLASSES = {'negative': 1000, 'mixed-sign': 1000, 'wide>=64': 300, 'mask-negative': 200, 'reflected': 200, 'law': 500}
+REQUIRED_CLASSES = {'negative': 1000, 'mixed-sign': 1000, 'wide>=64': 300, 'mask-negative': 200, 'reflected': 200, 'law': 500, 'indexed-operand': 200}
 OPS = ('and', 'or', 'xor')
 PY = {'and': lambda a, b: a & b, 'or': lambda a, b: a | b, 'xor': lambda a, b: a ^ b}
 WIDE = [16, 31, 32, 33, 63, 64, 65, 100, 128]
@@ -87,19 +88,33 @@ def check_scalar(ctx, case):
     sx, w, f = fx
     kx, ky = int(case['kx']), int(case['ky'])
     F = C.Fxp()
-    sig = 'scalar/%s' % ('wide' if w >= 64 else 'core')
+    sig = 'scalar/%s%s' % ('wide' if w >= 64 else 'core', '/indexed' if case.get('indexed') else '')
     ctx.ev(8)
     ctx.cls('law', 4)
 
+    def elem(fmt, k):
+        # the operand is an element taken out of an array (an ordinary scalar object as far as the statement goes)
+        return F(np.array([k, 0], dtype=object if fmt[1] > 62 else np.int64), fmt[0], fmt[1], fmt[2], raw=True)[0]
+
     def do():
-        x, y = mk(F, fx, kx), mk(F, fy, ky)
+        x, y = (elem(fx, kx), elem(fy, ky)) if case.get('indexed') else (mk(F, fx, kx), mk(F, fy, ky))
+        if case.get('indexed'):
+            m = M.twos(ky, w)
+            for name, z in (('and-mask', x & m), ('rmask-or', m | x)):
+                want = oracle(name.replace('-mask', '').replace('rmask-', ''), kx, M.resign(m, sx, w), sx, w)
+                if C.codes(z) != want or C.fmt_of(z) != (bool(sx), w, f):
+                    raise Mismatch(name + '/value', {'expected': str(want), 'got': str(C.codes(z)), 'fmt': C.fmt_of(z)})
         r = {'and': x & y, 'or': x | y, 'xor': x ^ y, 'inv': ~x, 'invinv': ~~x}
         r['dm1'] = (~(x & y), (~x) | (~y))
         r['dm2'] = (~(x | y), (~x) & (~y))
         if sx and w >= 2:       # one LSB must itself be representable
             r['neg'] = (~x, (-x) - F(1, sx, w, f, raw=True)) if kx != M.rng(sx, w)[0] else None
         return x, y, r
-    ok, res = ctx.guard(case, do, sig_prefix=sig + '/')
+    try:
+        ok, res = ctx.guard(case, do, sig_prefix=sig + '/')
+    except Mismatch as e:
+        ctx.fail('%s/%s' % (sig, e.sig), case, e.detail)
+        return
     if not ok:
         return
     x, y, r = res
@@ -121,8 +136,10 @@ def check_scalar(ctx, case):
                 return
         if sx and r.get('neg'):
             a, b = r['neg']
-            if C.values(a) != C.values(b):
-                ctx.fail(sig + '/law/invert-is-neg-minus-lsb', case, {'lhs': str(C.values(a)), 'rhs': str(C.values(b))})
+            # exact values from the codes (get_val() is a double and cannot hold more than 53 bits)
+            va, vb = M.value_of(C.codes(a), a.n_frac), M.value_of(C.codes(b), b.n_frac)
+            if va != vb:
+                ctx.fail(sig + '/law/invert-is-neg-minus-lsb', case, {'lhs': str(va), 'rhs': str(vb)})
                 return
     except ValueError as e:
         ctx.fail(sig + '/non-integer-code', case, {'error': str(e)})
@@ -198,7 +215,7 @@ def st_case(draw):
     fy = (sy, w, draw(st.sampled_from([0, w // 3, w])))
     kind = draw(st.sampled_from(['scalar', 'scalar', 'vec-fxp', 'vec-mask', 'vec-rmask', 'mismatch']))
     if kind == 'scalar':
-        return {'check': 'scalar', 'fx': list(fx), 'fy': list(fy), 'kx': draw(st_codew(sx, w)), 'ky': draw(st_codew(sy, w))}
+        return {'check': 'scalar', 'fx': list(fx), 'fy': list(fy), 'kx': draw(st_codew(sx, w)), 'ky': draw(st_codew(sy, w)), 'indexed': draw(st.integers(0, 3)) == 0}
     if kind == 'mismatch':
         w2 = w + draw(st.sampled_from([-1, 1, 8]))
         return {'check': 'mismatch', 'fx': list(fx), 'fy': [sy, max(w2, 1) if max(w2, 1) != w else w + 1, 0]}
@@ -234,6 +251,8 @@ def body(ctx, case):
             ctx.cls('mask-negative')
         if case.get('ykind') == 'rmask':
             ctx.cls('reflected')
+    if case.get('indexed'):
+        ctx.cls('indexed-operand')
     if nt:
         ctx.nontrivial(('bit', repr(sorted((k, repr(v)) for k, v in case.items()))))
     ctx.sample(case, nt)
